@@ -83,6 +83,10 @@ type Monitor struct {
 	NumDeltas        int
 	NumOther         int // message kinds the monitor does not interpret (config, not-ready, ...)
 	NumPolicyRefChg  int // ActivePolicy/ProfileUpdate that changed the set of referenced IP sets
+	// VTEP/route rule exercised non-vacuously: flushes in which a VTEP add and the add of a route
+	// needing it both occurred / a VTEP remove and the remove of a route that needed it both occurred.
+	NumVTEPRouteAddFlushes int
+	NumVTEPRouteDelFlushes int
 
 	datastoreInSync bool
 
@@ -90,6 +94,8 @@ type Monitor struct {
 	flushRouteAdds   []routeAdd          // route updates needing a VTEP, with VTEP presence at that time
 	flushVTEPRemoved map[string][]string // node -> dsts of VXLAN routes to node present when its VTEP was removed
 	flushRemoved     map[string]bool     // object keys removed in this flush (for "removed and re-added" class)
+	flushVTEPAdded   map[string]bool     // nodes whose VTEP was added/updated in this flush
+	flushRouteDelFor map[string]bool     // nodes for which a route needing their VTEP was removed in this flush
 	FlushReAdds      int                 // objects removed and (re)added within one flush (class counter)
 }
 
@@ -124,6 +130,8 @@ func (m *Monitor) resetFlush() {
 	m.flushRouteAdds = nil
 	m.flushVTEPRemoved = map[string][]string{}
 	m.flushRemoved = map[string]bool{}
+	m.flushVTEPAdded = map[string]bool{}
+	m.flushRouteDelFor = map[string]bool{}
 }
 
 // DatastoreInSync tells the monitor that the datastore has reported in-sync to Felix (call it
@@ -446,6 +454,7 @@ func (m *Monitor) OnEvent(msg any) error {
 		if !ok {
 			bad("RouteRemove for route %q which does not exist", e.Dst)
 		} else if RouteNeedsVTEP(old) {
+			m.flushRouteDelFor[old.DstNodeName] = true
 			for _, dst := range m.flushVTEPRemoved[old.DstNodeName] {
 				if dst == e.Dst {
 					bad("VTEP of node %q was removed before, in the same flush, RouteRemove %q of a route that needed it",
@@ -458,6 +467,7 @@ func (m *Monitor) OnEvent(msg any) error {
 
 	case *proto.VXLANTunnelEndpointUpdate:
 		m.VTEPs[e.Node] = e
+		m.flushVTEPAdded[e.Node] = true
 		m.noteAdded("vtep/" + e.Node)
 	case *proto.VXLANTunnelEndpointRemove:
 		if _, ok := m.VTEPs[e.Node]; !ok {
@@ -559,6 +569,23 @@ func (m *Monitor) OnEvent(msg any) error {
 // legal (the dataplane waits for the VTEP).
 func (m *Monitor) EndFlush() error {
 	defer m.resetFlush()
+	relevantAdd, relevantDel := false, false
+	for _, ra := range m.flushRouteAdds {
+		if m.flushVTEPAdded[ra.node] {
+			relevantAdd = true
+		}
+	}
+	for node := range m.flushVTEPRemoved {
+		if m.flushRouteDelFor[node] {
+			relevantDel = true
+		}
+	}
+	if relevantAdd {
+		m.NumVTEPRouteAddFlushes++
+	}
+	if relevantDel {
+		m.NumVTEPRouteDelFlushes++
+	}
 	for _, ra := range m.flushRouteAdds {
 		if ra.vtepThere {
 			continue
